@@ -87,7 +87,7 @@ ASSUMPTIONS = [
 ]
 EXHAUSTIVE = {"quick": False, "thorough": False}
 BUDGET_S = {"quick": 32, "thorough": 380}
-TABLES = ["attrsKw", "defineKw", "fn_determine_attrs_eq_order", "fn_determine_attrib_eq_order"]
+TABLES = ["attrsKw", "defineKw", "fn_determine_attrs_eq_order", "fn_determine_attrib_eq_order", "fn_attrs_wrap"]
 PARALLEL = True
 
 OPS = ["lt", "le", "gt", "ge"]
